@@ -229,6 +229,7 @@ def check():
                        fields.index(ms.proj(r, ("f", 0), E)) < fields.index(ms.proj(r, ("f", 1), E)))
     # NodeRef::span = start-of-first-leaf .. end-of-last-leaf
     ex = mirlib.executor([MM])
+    ex.emulate_option_map = True       # the span may be built inside `start.zip(end).map(|(s, e)| ..)`
     seen = False
     for p in ex.run(f_ns, arg_names=["self"]):
         if p.kind != "return" or p.ret[0] != "variant" or p.ret[2] != "Some":
@@ -271,10 +272,21 @@ def check():
                 structural("NodeRef::%s: searches its children from the %s" % (nm, "front" if nm == "start" else "back"), False)
         structural("NodeRef::%s: a leaf answers with its own token, a tree with the first hit among its children taken from the %s" % (nm, "front" if nm == "start" else "back"), leaf and tree)
     ex = mirlib.executor([MM])
+    n_last = 0
     for p in ex.run(f_end, arg_names=["self"]):
         if p.kind == "return":
             tl = [e for e in p.calls() if e[1].endswith("::tail")]
-            structural("TokenList::end: the end of the last stored range (0 for an empty list)", len(tl) == 1 and any(t == tl[0][3] for t in ms.subterms(p.ret)))
+            if len(tl) != 1:
+                structural("TokenList::end: looks at the last stored token", False)
+                continue
+            if p.ret == ms.C("int", 0):
+                # written as a match: the empty case answers 0 - and only the empty case
+                L.expect_unsat("TokenList::end: 0 only for an empty list", S.pc(p.pc) + [S.disc(S.v(tl[0][3])) != 0], on_sat)
+            else:
+                n_last += 1
+                structural("TokenList::end: the end of the last stored range (0 for an empty list)", any(t == tl[0][3] for t in ms.subterms(p.ret)))
+    if n_last == 0:
+        o.inconc("TokenList::end: no path reads the last stored range")
 
     o.samples = [{"query": q["name"], "verdict": q["verdict"]} for q in o.queries[:14]]
     mism, rdir, detail = run_corpus()
